@@ -21,7 +21,7 @@ ASSUMPTIONS = [
     'the package hash is only required to be identical between two dumps of the same data (its exact preimage is not documented)',
 ]
 BUDGET = {'quick': dict(examples=800, shards=8, seconds=75),
-          'thorough': dict(examples=24000, shards=16, seconds=1200)}
+          'thorough': dict(examples=50000, shards=16, seconds=1200)}
 
 DEFAULTS = {'datapackage-rowcount': 'count_of_rows', 'datapackage-bytes': 'bytes', 'datapackage-hash': 'hash',
             'resource-rowcount': 'count_of_rows', 'resource-bytes': 'bytes', 'resource-hash': 'hash'}
